@@ -1300,3 +1300,14 @@ _solve = la.solve
 ''',
      'cbtf: expansion of `a` in a closure with returns on some paths of nested ifs'),
 ]
+
+# first-order mutants the first pass reported only by accident (the deleted binding made a local a free symbol): a local that is read before
+# it is bound on the path taken, or that only one arm of an undecided test binds, is an error value
+RECIPES += [
+    ("C15", "break", ["C15-R1"], CB, "        displ = np.zeros((lt, lenf), dtype=complex)\n        accel = displ.copy()\n", "        accel = displ.copy()\n",
+     "allocation of the displacement deleted: `displ` is unbound in the branch with interior DOF"),
+    ("C15", "break", ["C15-R1"], CB, "        displ = np.zeros((lt, lenf), dtype=complex)\n        accel = displ.copy()\n", "        displ = np.zeros((lt, lenf), dtype=complex)\n",
+     "allocation of the acceleration deleted"),
+    ("C15", "break", ["C15-R1"], CB, "        tf = None\n        if isinstance(save, abc.MutableMapping):", "        if isinstance(save, abc.MutableMapping):",
+     "`tf = None` deleted: the solver is unbound unless `save` is a mapping"),
+]
